@@ -117,7 +117,9 @@ impl<'de, R: Reader<'de>> Deserializer<R> {
     where
         T: de::Deserialize<'de>,
     {
-        de::Deserialize::deserialize(self)
+        // errors made outside of this deserializer (e.g. by the buffered content of untagged or
+        // internally tagged enums) have no position yet
+        de::Deserialize::deserialize(&mut *self).map_err(|err| self.parser.fix_position(err))
     }
 
     /// Convert Deserializer to a [`StreamDeserializer`].
@@ -1365,7 +1367,7 @@ where
         de = de.utf8_lossy();
     }
 
-    let value = tri!(de::Deserialize::deserialize(&mut de));
+    let value = tri!(de.deserialize());
 
     // Make sure the whole stream has been consumed.
     tri!(de.parser.parse_trailing());
